@@ -22,6 +22,24 @@ var Methods = []string{"GET", "POST", "PUT", "DELETE", "PATCH", "OPTIONS", "HEAD
 // ExpandMethod returns the method trees a registration under `method` goes to
 // (nil when the method is unknown).
 func ExpandMethod(method string) []string {
+	if strings.Contains(method, ",") {
+		// a comma list as Routes() takes it: blanks around the names are ignored
+		var out []string
+		seen := map[string]bool{}
+		for _, part := range strings.Split(method, ",") {
+			ms := ExpandMethod(strings.TrimSpace(part))
+			if ms == nil {
+				return nil
+			}
+			for _, m := range ms {
+				if !seen[m] {
+					seen[m] = true
+					out = append(out, m)
+				}
+			}
+		}
+		return out
+	}
 	m := strings.ToUpper(method)
 	if m == "*" {
 		return Methods
